@@ -479,3 +479,78 @@ func (t *tlFunc) returnsValue(v ssa.Value) bool {
 	}
 	return walk(v)
 }
+
+// collectF13: an in-place kernel that returns a container may return a different one (an array that grew
+// into a bitmap container, a bitmap that shrank into an array, re-minimised runs). When its receiver sits
+// in a table slot, the result has to go back into the table (or be handed back to the caller): a result
+// that is only inspected leaves the old container in the slot.
+func (t *tlFunc) collectF13() {
+	lv := t.e.lv
+	if lv.name != "32" {
+		return
+	}
+	per := map[string]int{}
+	for _, b := range t.fn.Blocks {
+		if t.dead[b] {
+			continue
+		}
+		for _, ins := range b.Instrs {
+			call, ok := ins.(*ssa.Call)
+			if !ok || call.Type() == nil || !lv.isSlotType(call.Type()) {
+				continue
+			}
+			name := ""
+			var recv ssa.Value
+			if call.Call.IsInvoke() {
+				name, recv = call.Call.Method.Name(), call.Call.Value
+			} else if f := call.Call.StaticCallee(); f != nil && f.Signature.Recv() != nil && len(call.Call.Args) > 0 && t.e.isKernelFn(f) {
+				name, recv = f.Name(), call.Call.Args[0]
+			}
+			if recv == nil || !inplaceContainerMethods[name] || !lv.isSlotType(recv.Type()) {
+				continue
+			}
+			inTable := false
+			for _, a := range t.provOf(recv) {
+				if a.k == aGate || a.k == aSlot {
+					inTable = true
+				}
+			}
+			if !inTable {
+				continue
+			}
+			per[name]++
+			site := &tlSite{rule: "F13", fn: t.fn, ctx: t.ctxS, instr: call, what: fmt.Sprintf("result of %s#%d", name, per[name])}
+			stored := false
+			t.resultUses(call, func(u ssa.Instruction, kind, utab string, uidx ssa.Value) {
+				stored = true
+			})
+			if !stored && t.returnsValue(call) {
+				stored = true
+			}
+			if !stored {
+				// carried into the next iteration of a loop and stored there (AddMany)
+				seen := map[ssa.Value]bool{}
+				var viaPhi func(v ssa.Value, d int)
+				viaPhi = func(v ssa.Value, d int) {
+					if d > 4 || seen[v] || v.Referrers() == nil {
+						return
+					}
+					seen[v] = true
+					for _, r := range *v.Referrers() {
+						if ph, ok := r.(*ssa.Phi); ok {
+							t.resultUses(ph, func(u ssa.Instruction, kind, utab string, uidx ssa.Value) { stored = true })
+							viaPhi(ph, d+1)
+						}
+					}
+				}
+				viaPhi(call, 0)
+			}
+			if stored {
+				site.status, site.note = "ok", "the returned container is stored (or handed back to the caller)"
+			} else {
+				site.status, site.note = "violation", fmt.Sprintf("the container returned by %s is never stored back into the table: when the kernel re-types the chunk (array <-> bitmap <-> run) the new container is lost and the slot keeps the old one", name)
+			}
+			t.e.addSite(site)
+		}
+	}
+}
